@@ -170,6 +170,8 @@ static uint64_t run_lp(const TinyLP& t, const ConfigSpace::Cfg& cfg, Ctx& c)
       std::string j = judge_status(st2, spx.objValueReal(), cl);
       if(!j.empty()) viol("resume in the same object: " + j, "after-iterlimit-solve:" + std::to_string(st));
    }
+   if(c.wantSample() && N >= 2)
+      c.sample("{\"lp\":" + t.json() + ",\"config\":" + jstr(cfgs) + ",\"iterations_unlimited\":" + std::to_string(N) + ",\"regular_bases\":" + std::to_string(cl.regular.size()) + ",\"exact_class\":" + jstr(cl.name()) + "}");
    // --- B: setBasis with every valid status assignment (regular bases x nonbasic placements), LP inside / outside the solver
    int n = t.n, m = t.m;
    for(int outside = 0; outside <= 1; ++outside)
